@@ -127,7 +127,9 @@ pub fn o_result(prop: &str, ops: &[Op], ex: &Exec) -> V {
                     let max = (*len as u64).min(remaining);
                     let exact = matches!(op, Op::ReadExact { .. });
                     let n = b.len() as u64;
-                    if n > max || (max > 0 && n == 0) || (exact && n != max) {
+                    // (a read_exact that reaches beyond the end fails; how much it has consumed by then is unspecified)
+                    let exact_eof = exact && (*len as u64) > remaining;
+                    if n > max || (max > 0 && n == 0 && !exact_eof) || (exact && !exact_eof && n != max) {
                         push(
                             &mut v,
                             format!("{prop}/result/{kind}/count"),
